@@ -136,10 +136,56 @@ def load_baseline():
     return {}
 
 
+def replay_file(path):
+    """./check --replay <file>: re-run a stored violation against the CURRENT tree.  With recorded inputs the real
+    function is executed natively on them and the failed clause re-evaluated (exit 1: still violated, 0: not);
+    without inputs (no-failing-input-found) the obligation is re-generated and re-discharged."""
+    from pyvc import vc, spec
+    from pyvc.interp import Interp
+
+    rec = json.load(open(path))
+    prop, name = rec["property"], rec["obligation"]
+    repo = repo_path()
+    print(f"replay of {name}\n  recorded: status={rec.get('status')} solver={rec.get('solver')} confirmed_natively={rec.get('confirmed_natively')}")
+    info = rec.get("replay") or {}
+    mod = load_module(prop)
+    if isinstance(info, dict) and info.get("inputs"):
+        label = name.rsplit("/", 1)[0]
+        cs = [c for c in mod.CONTRACTS if c.label == label]
+        if cs:
+            c = cs[0]
+            I = Interp(repo)
+            for (f_, q_), fn in c.summaries.items():
+                I.summaries[(f_, q_)] = fn
+            o = vc.Obl(name, [], None, "return", info.get("path", 0), c)
+            o.backend = "recorded inputs"
+            verdict, new = vc._native_replay_one(c, I, o, spec.RecordedModel(info["inputs"]), repo)
+            print("  inputs:", json.dumps(info["inputs"])[:1500])
+            print("  native outcome:", new.get("native_outcome"), "| clauses:", json.dumps(new.get("native_clauses"))[:800])
+            print("  verdict on the current tree:", new.get("verdict"))
+            if verdict == "violation":
+                print(f"VIOLATION property={prop} replay={path}")
+                return 1
+            return 0 if verdict == "spurious" else 3
+    print("  no failing input recorded; solver output:", str(rec.get("solver_output"))[:1500])
+    print("  re-generating the obligation from the current tree ...")
+    import subprocess
+
+    p = subprocess.run([sys.executable, "-m", "pyvc.driver", prop, "quick"], cwd=VERIF, capture_output=True, text=True)
+    short = _sanitize(name.split("/", 1)[1])
+    still = [ln for ln in p.stdout.splitlines() if ln.startswith("VIOLATION") and short in ln]
+    for ln in still:
+        print(ln)
+    print("  obligation", "still fails" if still else "is discharged (or no longer generated)", "on the current tree")
+    return 1 if still else 0
+
+
 def main(argv):
     if len(argv) < 2:
-        print("usage: check <Cxx> quick|thorough [--write-baseline]")
+        print("usage: check <Cxx> quick|thorough [--write-baseline] | check --replay <file>")
         return 3
+    if argv[1] == "--replay":
+        return replay_file(argv[2])
     prop = argv[1]
     tier = argv[2] if len(argv) > 2 and not argv[2].startswith("--") else os.environ.get("VERIF_TIER", "quick")
     write_baseline = "--write-baseline" in argv
